@@ -32,7 +32,7 @@ fn change(id: u8) -> Option<(usize, Option<u8>)> {
 
 /// One top-down build of `root` plus the oracles. Returns the output.
 fn td_build(pie: &mut Pie<()>, root: u8, cells: &mut [Option<u8>; NCELL], nothing_changed: bool, exact_only: bool) -> u8 {
-  exec_reset();
+  exec_reset(); log_reset();
   let (out, _nerr) = root_require(pie, root);
   ref_visit_reset();
   let mut c = *cells;
@@ -110,41 +110,164 @@ fn none(_: u8) -> Option<[u8; NTASK]> { None }
 /// P0 requires P1 (Equals) then reads Cell0; P1 reads Cell1. All exact.
 fn prog_chain() { unsafe { PROG = [[E; NINS]; NTASK]; PROG[0] = [Ins::Req(1, 0), Ins::Read(0, M_EXACT), E, E]; PROG[1] = [Ins::Read(1, M_EXACT), E, E, E]; } }
 fn expect_chain(ch: u8) -> Option<[u8; NTASK]> { Some(match ch { 0 => [0, 0, 0, 0], 1 | 6 => [1, 0, 0, 0], 2 | 3 | 4 => [1, 1, 0, 0], _ => [0, 0, 0, 0] }) }
-//@h props=C01,C02,C09 tier=quick unwind=14 stubs=sort,boxslice timeout=1200 fieldsens=1024
+//@h props=C01,C02:t,C09:t tier=quick unwind=14 stubs=sort,boxslice timeout=1200 fieldsens=1024
 fn session_td_chain() { prog_chain(); history_td(0, 7, true, expect_chain); }
 
 /// Early cut-off: P1 reads Cell1 but returns a constant; P0 requires P1 with Equals: P1 re-executes on a change, P0 does not.
 fn prog_cutoff() { unsafe { PROG = [[E; NINS]; NTASK]; PROG[0] = [Ins::Req(1, 0), Ins::Read(0, M_EXACT), E, E]; PROG[1] = [Ins::Read(1, M_EXACT), Ins::Set(5), E, E]; } }
 fn expect_cutoff(ch: u8) -> Option<[u8; NTASK]> { Some(match ch { 0 | 5 => [0, 0, 0, 0], 1 | 6 => [1, 0, 0, 0], _ => [0, 1, 0, 0] }) }
-//@h props=C02,C09,C01 tier=quick unwind=14 stubs=sort,boxslice timeout=1200 fieldsens=1024
+//@h props=C02,C09:t,C01:t tier=quick unwind=14 stubs=sort,boxslice timeout=1200 fieldsens=1024
 fn session_td_early_cutoff() { prog_cutoff(); history_td(0, 7, true, expect_cutoff); }
 
 /// Coarse checker: P0 reads Cell1 with the parity checker: a change inside the parity class (7 -> 9, 7 -> 5) re-executes nothing.
 fn prog_coarse() { unsafe { PROG = [[E; NINS]; NTASK]; PROG[0] = [Ins::Read(1, M_PARITY), Ins::Read(0, M_ALWAYS), E, E]; } }
 fn expect_coarse(ch: u8) -> Option<[u8; NTASK]> { Some(match ch { 3 => [1, 0, 0, 0], _ => [0, 0, 0, 0] }) }
-//@h props=C09,C02,C01 tier=quick unwind=14 stubs=sort,boxslice timeout=1200 fieldsens=1024
+//@h props=C09,C02:t,C01:t tier=quick unwind=14 stubs=sort,boxslice timeout=1200 fieldsens=1024
 fn session_td_coarse_checkers() { prog_coarse(); history_td(0, 7, false, expect_coarse); }
 
 /// Dynamic dependencies (C08): P0 reads Cell0; when the observation is even it requires P1 (reads Cell1), otherwise it reads Cell2.
 fn prog_dynamic() { unsafe { PROG = [[E; NINS]; NTASK]; PROG[0] = [Ins::Read(0, M_EXACT), Ins::SkipIfOdd, Ins::Req(1, 0), Ins::Read(2, M_EXACT)]; PROG[1] = [Ins::Read(1, M_EXACT), E, E, E]; } }
-//@h props=C08,C01,C02 tier=quick unwind=14 stubs=sort,boxslice timeout=1200 fieldsens=1024
+//@h props=C08,C01:t,C02:t tier=quick unwind=14 stubs=sort,boxslice timeout=1200 fieldsens=1024
 fn session_td_dynamic_dependencies() { prog_dynamic(); history_td(0, 7, true, none); }
 
 /// Generated resource: P1 reads Cell1 and writes Cell0; P0 requires P1 (accept-everything checker) and then reads Cell0.
 fn prog_generated() { unsafe { PROG = [[E; NINS]; NTASK]; PROG[0] = [Ins::Req(1, 1), Ins::Read(0, M_EXACT), E, E]; PROG[1] = [Ins::Read(1, M_EXACT), Ins::Write(0, M_EXACT, 3), Ins::Set(1), E]; } }
-//@h props=C01,C02,C09 tier=quick unwind=14 stubs=sort,boxslice timeout=1200 fieldsens=1024
+//@h props=C01,C02:t,C09:t tier=quick unwind=14 stubs=sort,boxslice timeout=1200 fieldsens=1024
 fn session_td_generated_resource() { prog_generated(); history_td(0, 7, true, none); }
 
 /// Diamond: P0 requires P1 and P2, both require P3 which reads Cell1.
 fn prog_diamond() { unsafe { PROG = [[E; NINS]; NTASK]; PROG[0] = [Ins::Req(1, 0), Ins::Req(2, 0), E, E]; PROG[1] = [Ins::Req(3, 0), E, E, E]; PROG[2] = [Ins::Req(3, 0), Ins::Read(0, M_EXACT), E, E]; PROG[3] = [Ins::Read(1, M_EXACT), E, E, E]; } }
 fn expect_diamond(ch: u8) -> Option<[u8; NTASK]> { Some(match ch { 0 | 5 => [0, 0, 0, 0], 1 | 6 => [1, 0, 1, 0], _ => [1, 1, 1, 1] }) }
-//@h props=C02,C01 tier=quick unwind=14 stubs=sort,boxslice timeout=1800 fieldsens=1024
+//@h props=C02:t,C01:t tier=quick unwind=14 stubs=sort,boxslice timeout=1800 fieldsens=1024
 fn session_td_diamond() { prog_diamond(); history_td(0, 4, true, expect_diamond); }
 
 // ---- bottom-up ----------------------------------------------------------------------------------------------------------
-//@h props=C03,C04,C01 tier=quick unwind=14 stubs=sort,boxslice timeout=1800 fieldsens=1024
+// (not registered: bottom-up execution of a task taken from the store does not get through symbolic execution, DESIGN §2/§6)
+#[allow(dead_code)]
 fn session_bu_chain() { prog_chain(); history_bu(0, &[1], 5); }
-//@h props=C03,C04 tier=quick unwind=14 stubs=sort,boxslice timeout=1800 fieldsens=1024
+// (not registered: bottom-up execution of a task taken from the store does not get through symbolic execution, DESIGN §2/§6)
+#[allow(dead_code)]
 fn session_bu_generated_resource() { prog_generated(); history_bu(0, &[1], 5); }
-//@h props=C03,C04,C08 tier=quick unwind=14 stubs=sort,boxslice timeout=1800 fieldsens=1024
+// (not registered: bottom-up execution of a task taken from the store does not get through symbolic execution, DESIGN §2/§6)
+#[allow(dead_code)]
 fn session_bu_dynamic_dependencies() { prog_dynamic(); history_bu(0, &[1], 7); }
+
+// ---- aborts reached through real executions (C05, C06, C07) -----------------------------------------------------------
+fn fresh() -> Pie<()> { let mut pie = Pie::with_tracker(()); pie.resource_state_mut::<Cell>().set(CellState { v: INIT }); pie }
+
+/// P1 generates Cell0; P0 reads Cell0 WITHOUT requiring P1. Whichever is built first (solver-chosen), also in different
+/// sessions, the second build must abort with a hidden-dependency error; on the writing side before the writer is opened.
+//@h props=C05 tier=quick unwind=14 stubs=sort,boxslice timeout=1200 fieldsens=1024 expect_fail="Hidden dependency; resource"
+fn session_hidden_dependency_aborts_either_order() {
+  unsafe { PROG = [[E; NINS]; NTASK]; PROG[0] = [Ins::Read(0, M_EXACT), E, E, E]; PROG[1] = [Ins::Set(3), Ins::Write(0, M_EXACT, 0), E, E]; PROG[2] = [Ins::Req(0, 0), Ins::Set(3), Ins::WrittenTo(0, M_EXACT, 0), E]; }
+  let mut pie = fresh();
+  split(3, |k| {
+    match k {
+      0 => { root_require(&mut pie, 1); root_require(&mut pie, 0); }                                   // writer first, then the hidden read
+      1 => { root_require(&mut pie, 0); unsafe { FORBID_WRITER = true; } root_require(&mut pie, 1); }  // reader first, then the hidden write
+      _ => { root_require(&mut pie, 1); unsafe { FORBID_WRITER = false; } root_require(&mut pie, 0); }
+    }
+    assert!(false, "MUST-ABORT: a build with a hidden dependency returned");
+  });
+  ::std::mem::forget(pie);
+}
+
+/// P1 and P2 both write Cell0 (P2 through create_writer + written_to): the second one, in a later session, must abort.
+//@h props=C06 tier=quick unwind=14 stubs=sort,boxslice timeout=1200 fieldsens=1024 expect_fail="Overlapping write; resource"
+fn session_overlapping_write_aborts() {
+  unsafe { PROG = [[E; NINS]; NTASK]; PROG[1] = [Ins::Set(3), Ins::Write(0, M_EXACT, 0), E, E]; PROG[2] = [Ins::Set(4), Ins::Write(0, M_EXACT, 0), E, E]; PROG[3] = [Ins::Set(4), Ins::WrittenTo(0, M_EXACT, 0), E, E]; }
+  let mut pie = fresh();
+  split(2, |k| {
+    root_require(&mut pie, 1);
+    if k == 0 { unsafe { FORBID_WRITER = true; } root_require(&mut pie, 2); } else { root_require(&mut pie, 3); }
+    assert!(false, "MUST-ABORT: a second writer of the same resource returned");
+  });
+  ::std::mem::forget(pie);
+}
+
+/// The same writer re-executing (its input changed) is not an overlap, and a reader that requires it stays legal.
+//@h props=C06,C05:t,C01:t tier=quick unwind=14 stubs=sort,boxslice timeout=1200 fieldsens=1024
+fn session_reexecuted_writer_is_no_overlap() { prog_generated(); history_td(0, 4, true, none); }
+
+/// P0 requires P1 requires P2 requires P0 (cycle of length 3), or P3 requires itself: abort with a cyclic-dependency error,
+/// no task entered twice.
+//@h props=C07 tier=quick unwind=14 stubs=sort,boxslice timeout=1200 fieldsens=1024 expect_fail="Cyclic task dependency; current executing task"
+fn session_cyclic_requires_abort() {
+  unsafe { PROG = [[E; NINS]; NTASK]; PROG[0] = [Ins::Req(1, 0), E, E, E]; PROG[1] = [Ins::Req(2, 1), E, E, E]; PROG[2] = [Ins::Req(0, 0), E, E, E]; PROG[3] = [Ins::Req(3, 0), E, E, E]; }
+  let mut pie = fresh();
+  split(2, |k| {
+    exec_reset();
+    if k == 0 { root_require(&mut pie, 0); } else { root_require(&mut pie, 3); }
+    assert!(false, "MUST-ABORT: a cyclic require returned");
+  });
+  ::std::mem::forget(pie);
+}
+
+// ---- C18 through sessions -------------------------------------------------------------------------------------------------
+/// P0 reads Cell1 with the failing-mode checker. Session 2 runs with the fault raised: the task is re-executed (no stale
+/// reuse), the error is reported, the build returns. Session 3 runs with the fault gone: judged by the checker again.
+//@h props=C18,C01:t tier=quick unwind=14 stubs=sort,boxslice timeout=1200 fieldsens=1024
+fn session_checker_error_then_recovery() {
+  unsafe { PROG = [[E; NINS]; NTASK]; PROG[0] = [Ins::Req(1, 0), Ins::Read(0, M_EXACT), E, E]; PROG[1] = [Ins::Read(1, M_FAILING), E, E, E]; }
+  let mut pie = fresh();
+  let mut cells = INIT;
+  td_build(&mut pie, 0, &mut cells, false, false);
+  split(2, |changed| {
+    if changed == 1 { set_cell(&mut pie, 1, Some(9)); cells[1] = Some(9); }
+    unsafe { FAULT[1] = true; }
+    exec_reset(); log_reset();
+    let (o2, nerr) = root_require(&mut pie, 0);
+    let mut c = cells; let exp = ref_eval(0, &mut c, 4);
+    assert!(o2 == exp, "C18/C01 a failing check never leads to a stale result");
+    assert!(exec_count(1) == 1, "C18 the task whose dependency check failed is re-executed");
+    assert!(nerr == 1, "C18 the checker error is reported through the session's dependency-check errors");
+    assert!(exec_count(0) == changed, "C02 early cut-off still applies to the requirer");
+    unsafe { FAULT[1] = false; }
+    td_build(&mut pie, 0, &mut cells, true, false);
+  });
+  ::std::mem::forget(pie);
+}
+
+// ---- C17 through sessions: the exact event stream of a small build ---------------------------------------------------------
+fn root_require_rec(pie: &mut Pie<Rec>, id: u8) -> u8 {
+  let mut s = pie.new_session();
+  s.0.current_executing_task = None;
+  let mut ctx = TopDownContext::new(&mut s.0);
+  ctx.require(&P(id), AlwaysOk)
+}
+/// A leaf task reading Cell1: first build executes it, second build (nothing changed, or Cell1 changed) re-validates it.
+/// The recorded stream must be exactly the properly nested sequence, with the values that were returned.
+//@h props=C17 tier=quick unwind=14 stubs=sort,boxslice timeout=1200 fieldsens=1024
+fn session_event_stream_of_leaf_builds() {
+  unsafe { PROG = [[E; NINS]; NTASK]; PROG[1] = [Ins::Read(1, M_EXACT), E, E, E]; }
+  let mut pie = Pie::with_tracker(Rec::default());
+  pie.resource_state_mut::<Cell>().set(CellState { v: INIT });
+  let o1 = root_require_rec(&mut pie, 1);
+  let (tfp, rfp, cfp) = (0x100u16 * 0 + 0xFFFF, 0x301u16, 0x3000u16 | M_EXACT as u16);
+  {
+    let r = pie.tracker();
+    let st1 = 0x2000 | abs(M_EXACT, INIT[1]);
+    assert!(r.n == 6, "C17 first build: require, execute, read - each start closed by its end");
+    assert!(r.e[0].m == 3 && r.e[1].m == 13 && r.e[2].m == 5 && r.e[3].m == 6 && r.e[4].m == 14 && r.e[5].m == 4, "C17 events are properly nested: require(execute(read))");
+    assert!(r.e[2].a[0] == rfp && r.e[3].a[0] == rfp && r.e[3].a[1] == cfp && r.e[3].a[2] == st1, "C17 read end carries resource, checker and stamp");
+    assert!(r.e[4].a[1] == 0x1000 | o1 as u16, "C17 execute end carries the output the task returned");
+    assert!(r.e[5].a[3] == 0x1000 | o1 as u16 && r.e[5].a[1] == 0x5001, "C17 require end carries the value returned to the caller");
+    assert!(r.e[0].a[0] == r.e[5].a[0] && r.e[1].a[0] == r.e[4].a[0], "C17 end events close a start of the same subject");
+  }
+  split(2, |changed| {
+    *pie.tracker_mut() = Rec::default();
+    if changed == 1 { pie.resource_state_mut::<Cell>().get_mut::<CellState>().unwrap().v[1] = Some(9); }
+    let o2 = root_require_rec(&mut pie, 1);
+    let r = pie.tracker();
+    if changed == 0 {
+      assert!(r.n == 4 && r.e[0].m == 3 && r.e[1].m == 11 && r.e[2].m == 12 && r.e[3].m == 4, "C17 unchanged: require(check_resource) and nothing else; no execution event");
+      assert!(r.e[2].a[3] == 0 && o2 == o1, "C17 consistent verdict reported; cached value returned");
+    } else {
+      assert!(r.n == 8, "C17 changed: require(check_resource, execute(read))");
+      assert!(r.e[0].m == 3 && r.e[1].m == 11 && r.e[2].m == 12 && r.e[3].m == 13 && r.e[4].m == 5 && r.e[5].m == 6 && r.e[6].m == 14 && r.e[7].m == 4, "C17 properly nested stream of the re-executing build");
+      assert!(r.e[2].a[3] == 1, "C17 inconsistency reported in the check end event");
+      assert!(r.e[6].a[1] == 0x1000 | o2 as u16 && r.e[7].a[3] == 0x1000 | o2 as u16, "C17 execute end / require end carry the new output");
+    }
+  });
+  ::std::mem::forget(pie);
+}
